@@ -236,3 +236,658 @@ PROPS = {
     "C04": dict(tie=tie_C04),
     "C05": dict(tie=tie_C05),
 }
+
+# ------------------------------------------------------------------ helpers on state images
+def st_int(hexs_):
+    return int.from_bytes(bytes.fromhex(hexs_), "little") if hexs_ != "-" else 0
+
+def is_ser(cmd):
+    return cmd.startswith("ser ")
+
+def only_state(cmd):
+    """mask for ties that compare state transitions only (not scrambled outputs)"""
+    return cmd.startswith("u32 ") or cmd.startswith("u64 ") or cmd.startswith("fill ")
+
+# ------------------------------------------------------------------ C06: jumps
+def tie_C06(ctx):
+    rng = ctx.rng
+    cases, comm = [], []
+    for g in JUMPERS:
+        info = GENS[g]
+        n, nb, nat = info["n"], info["seed"], native(g)
+        basis = list(range(n)) if ctx.thorough else rng.sample(range(n), 40)
+        states = [(1 << j).to_bytes(nb, "little") for j in basis]
+        states += [rand_bytes(rng, nb) for _ in range(ctx.scale(24, 200))]
+        states += [((1 << n) - 1).to_bytes(nb, "little")]
+        for s in states:
+            cases.append([f"new 0 {g} seed {s.hex()}", "clone 1 0", "jump 0", "ser 0", "ljump 1", "ser 1",
+                          f"{nat} 0", f"{nat} 1"])
+            ctx.dist[f"{g}:jump+ljump"] += 1
+        for _ in range(ctx.scale(6, 60)):
+            s = rand_bytes(rng, nb)
+            k = rng.randrange(1, 5)
+            comm.append([f"new 0 {g} seed {s.hex()}", "clone 1 0", "clone 2 0", "clone 3 0",
+                         "jump 0"] + [f"{nat} 0"] * k + [f"{nat} 1"] * k + ["jump 1", "eq 0 1", "ser 0", "ser 1",
+                         "jump 2", "ljump 2", "ljump 3", "jump 3", "eq 2 3"])
+    ctx.absolute("jump/long_jump state and following output vs model (basis + random states)", cases,
+                 mask=lambda c: c.startswith("u32 ") or c.startswith("u64 "))
+    h, _ = ctx.absolute("jump commutes with stepping and with long_jump", comm, mask=only_state)
+    for c, o in zip(comm, h):
+        for cmd, x in zip(c, o):
+            if cmd.startswith("eq ") and x != "true":
+                ctx.fail("jump-commute", f"{c[0].split()[2]}: jump does not commute with stepping / long_jump", c,
+                         expected="true", actual=x)
+    if ctx.thorough:
+        falsify_C06(ctx, sample=2)
+
+def real_orbit(ctx, g, seed, steps):
+    nat = native(g)
+    c = [f"new 0 {g} seed {seed.hex()}", "ser 0"]
+    for _ in range(steps):
+        c += [f"{nat} 0", "ser 0"]
+    o = ctx.real(f"orbit of the real {g} step (state image after every step)", [c])[0]
+    return [st_int(x) for cmd, x in zip(c, o) if is_ser(cmd)]
+
+def falsify_C06(ctx, sample=1, gens=None):
+    """Black-box: recover the minimal polynomial P of the real step by Berlekamp–Massey, compute
+    x^(2^(n/2)) and x^(2^(3n/4)) mod P, evaluate them on a state with n real steps and compare
+    with the real jump()/long_jump()."""
+    rng = ctx.rng
+    for g in (gens or JUMPERS):
+        info = GENS[g]
+        n, nb = info["n"], info["seed"]
+        for _ in range(sample):
+            seed = rand_bytes(rng, nb)
+            S = real_orbit(ctx, g, seed, 2 * n + 2)
+            bits = [s & 1 for s in S]
+            P, L = gf2.min_poly_from_bits(bits)
+            for op, e in (("jump", 1 << (n // 2)), ("ljump", 1 << (3 * n // 4))):
+                J = gf2.powx(e, P)
+                exp = 0
+                for i in range(J.bit_length()):
+                    if (J >> i) & 1:
+                        exp ^= S[i]
+                c = [f"new 0 {g} seed {seed.hex()}", f"{op} 0", "ser 0"]
+                o = ctx.real("real jump vs x^(2^k) mod P evaluated with real steps", [c])[0]
+                act = st_int(o[2])
+                ctx.dist[f"{g}:BM-degree={L}"] += 1
+                if act != exp:
+                    ctx.fail("jump-vs-steps", f"{g}.{ 'long_jump' if op == 'ljump' else 'jump'}() does not equal 2^{(n//2) if op=='jump' else (3*n//4)} "
+                             f"of its own steps (expected state computed from {n} real steps and the minimal polynomial of the real engine, degree {L})",
+                             c, expected=exp.to_bytes(nb, "little").hex(), actual=o[2])
+
+# ------------------------------------------------------------------ C07: full period
+def tie_C07(ctx):
+    rng = ctx.rng
+    cases = []
+    for g in LINEAR:
+        info = GENS[g]
+        n, nb, nat = info["n"], info["seed"], native(g)
+        for j in range(n):
+            cases.append([f"new 0 {g} seed {(1 << j).to_bytes(nb, 'little').hex()}", f"{nat} 0", "ser 0"])
+            ctx.dist[f"{g}:basis"] += 1
+        for _ in range(ctx.scale(30, 400)):
+            cases.append([f"new 0 {g} seed {rand_bytes(rng, nb).hex()}", f"{nat} 0", "ser 0", f"{nat} 0", "ser 0"])
+    ctx.absolute("state transition on all n basis states of every linear engine (+ random states) vs model", cases,
+                 mask=only_state)
+    # GF(2)-linearity of the real step on random triples
+    tri, meta = [], []
+    for g in LINEAR:
+        nb, nat = GENS[g]["seed"], native(g)
+        for _ in range(ctx.scale(12, 100)):
+            a, b = rand_bytes(rng, nb), rand_bytes(rng, nb)
+            x = bytes(p ^ q for p, q in zip(a, b))
+            if not any(x) or not any(a) or not any(b):
+                continue
+            tri.append([f"new 0 {g} seed {a.hex()}", f"{nat} 0", "ser 0", f"new 1 {g} seed {b.hex()}", f"{nat} 1", "ser 1",
+                        f"new 2 {g} seed {x.hex()}", f"{nat} 2", "ser 2"])
+            meta.append(g)
+    outs = ctx.real("linearity of the real step: step(a^b) = step(a)^step(b)", tri)
+    for g, c, o in zip(meta, tri, outs):
+        if st_int(o[2]) ^ st_int(o[5]) != st_int(o[8]):
+            ctx.fail("linearity", f"{g}: the real step is not GF(2)-linear", c)
+    if ctx.thorough:
+        falsify_C07(ctx)
+
+def falsify_C07(ctx, gens=None):
+    """extract the real transition matrix from the basis images; singular -> a non-zero state that
+    steps to zero; otherwise minimal polynomial by Berlekamp–Massey and a primitivity test; a small
+    factor gives a short cycle that is replayed on the real code."""
+    rng = ctx.rng
+    for g in (gens or LINEAR):
+        info = GENS[g]
+        n, nb, nat = info["n"], info["seed"], native(g)
+        cases = [[f"new 0 {g} seed {(1 << j).to_bytes(nb, 'little').hex()}", f"{nat} 0", "ser 0"] for j in range(n)]
+        outs = ctx.real("basis images of the real step", cases)
+        cols = [st_int(o[2]) for o in outs]
+        rank, ker = gf2.rank_and_kernel(cols, n)
+        if ker is not None:
+            seed = ker.to_bytes(nb, "little")
+            c = [f"new 0 {g} seed {seed.hex()}", f"{nat} 0", "ser 0"]
+            o = ctx.real("kernel vector of the real step", [c])[0]
+            ctx.fail("not-bijective", f"{g}: the step is not a bijection (rank {rank} < {n}): this non-zero state steps to the all-zero state",
+                     c, expected="non-zero state", actual=o[2])
+            continue
+        seed = rand_bytes(rng, nb)
+        S = real_orbit(ctx, g, seed, 2 * n + 2)
+        P, L = gf2.min_poly_from_bits([s & 1 for s in S])
+        ok, why = gf2.is_primitive(P, n) if L == n else (False, f"minimal polynomial of a random orbit has degree {L} < {n}")
+        ctx.dist[f"{g}:{why}"] += 1
+        if ok:
+            continue
+        # look for a short cycle
+        found = False
+        for d, f in gf2.small_factors(P, 20):
+            q = gf2.polydiv(P, f)
+            w = 0
+            for i in range(q.bit_length()):
+                if (q >> i) & 1:
+                    w ^= S[i]
+            if w == 0:
+                continue
+            bound = (1 << d) * gf2.deg(f) // d if d else 1
+            c = [f"new 0 {g} seed {w.to_bytes(nb, 'little').hex()}", f"cycle 0 {min(1 << 21, (1 << d))}"]
+            o = ctx.real("short cycle of the real step", [c])[0]
+            if o[1].isdigit():
+                ctx.fail("short-cycle", f"{g}: non-zero state on a cycle of length {o[1]} < 2^{n}-1 ({why})", c,
+                         expected=f"period 2^{n}-1", actual=o[1])
+                found = True
+                break
+        if not found:
+            ctx.fail("not-primitive", f"{g}: characteristic polynomial of the real step is not primitive: {why} "
+                     f"(P = {P:#x}); algebraic witness only", [f"new 0 {g} seed {seed.hex()}"], expected="primitive", actual=why)
+
+# ------------------------------------------------------------------ C08: zero seeds
+def tie_C08(ctx):
+    rng = ctx.rng
+    cases = []
+    fam14 = [g for g in XOSHIRO_FAMILY if g != "SplitMix64"]
+    for g in fam14:
+        nb = GENS[g]["seed"]
+        z = "00" * nb
+        cases.append([f"new 0 {g} seed {z}", "ser 0", f"new 1 {g} u64 {0:016x}", "ser 1", "eq 0 1", f"{native(g)} 0"])
+    cases.append(["new 0 XorShiftRng seed " + "00" * 16, "ser 0", "u32 0"])
+    h, _ = ctx.absolute("all-zero seed of every size: from_seed vs seed_from_u64(0) / 0x0BAD5EED", cases)
+    for c, o in zip(cases, h):
+        g = c[0].split()[2]
+        if st_int(o[1]) == 0:
+            ctx.fail("zero-state", f"{g}::from_seed(all-zero) returns the all-zero state", c, expected="non-zero", actual=o[1])
+        if g == "XorShiftRng":
+            if o[1] != "ed5ead0b" * 4:
+                ctx.fail("zero-remap", "XorShiftRng::from_seed(0) is not four words 0x0BAD5EED", c, expected="ed5ead0b" * 4, actual=o[1])
+        elif o[4] != "true" or o[1] != o[3]:
+            ctx.fail("zero-remap", f"{g}::from_seed(all-zero) differs from seed_from_u64(0)", c, expected=o[3], actual=o[1])
+    # verbatim use of non-zero seeds (hence injective)
+    verb = []
+    for g in LINEAR:
+        nb = GENS[g]["seed"]
+        for cls, s in seed_classes(rng, nb, ctx.scale(20, 300), all_bits=ctx.thorough):
+            verb.append([f"new 0 {g} seed {s.hex()}", "ser 0"])
+    h, _ = ctx.absolute("non-zero seeds are used verbatim", verb)
+    for c, o in zip(verb, h):
+        if o[1] != c[0].split()[4]:
+            ctx.fail("verbatim", f"{c[0].split()[2]}: state is not the little-endian words of the non-zero seed", c,
+                     expected=c[0].split()[4], actual=o[1])
+    # seed_from_u64 for many x, including the ones whose first SplitMix64 output is zero
+    u = []
+    specials = [0, (-PHI) & MASK64, (-2 * PHI) & MASK64, 1, MASK64, PHI]
+    for g in LINEAR:
+        for x in specials + [rng.getrandbits(64) for _ in range(ctx.scale(20, 400))]:
+            u.append([f"new 0 {g} u64 {x:016x}", "ser 0"])
+    h, _ = ctx.absolute("seed_from_u64(x) never yields the zero state", u)
+    for c, o in zip(u, h):
+        if st_int(o[1]) == 0 and o[0] == "ok":
+            ctx.fail("zero-state", f"{c[0].split()[2]}::seed_from_u64({c[0].split()[4]}) is the all-zero state", c)
+    # from_rng / try_from_rng on sources with leading all-zero blocks
+    r = []
+    for g in LINEAR:
+        nb = GENS[g]["seed"]
+        for k in range(0, 4):
+            for how in ("rng", "try"):
+                tail = rand_bytes(rng, 2 * nb)
+                body = bytes(nb * k) + tail
+                r.append([f"src 1 {body.hex()}", f"new 0 {g} {how} 1", "ser 0", "pos 1", f"{native(g)} 0"])
+                ctx.dist[f"zero-blocks={k}"] += 1
+    h, _ = ctx.absolute("from_rng/try_from_rng on sources with k leading all-zero blocks", r)
+    for c, o in zip(r, h):
+        g = c[1].split()[2]
+        nb = GENS[g]["seed"]
+        if o[1] == "ok" and st_int(o[2]) == 0:
+            ctx.fail("zero-state", f"{g}::{'try_from_rng' if ' try ' in c[1] else 'from_rng'} returned the all-zero state", c)
+        if g == "XorShiftRng" and o[1] == "ok":
+            body = bytes.fromhex(c[0].split()[2])
+            k = 0
+            while body[16 * k:16 * k + 16] == bytes(16):
+                k += 1
+            want = body[16 * k:16 * k + 16].hex()
+            if o[2] != want or o[3] != str(16 * (k + 1)):
+                ctx.fail("redraw", "XorShiftRng: from_rng does not return the first non-zero block / consumes wrong amount", c,
+                         expected=f"{want} pos={16*(k+1)}", actual=f"{o[2]} pos={o[3]}")
+
+# ------------------------------------------------------------------ C09: seeding routes agree
+def pcg32_seed(x, n):
+    MUL, INC = 6364136223846793005, 11634580027462260723
+    out = b""
+    while len(out) < n:
+        x = (x * MUL + INC) & MASK64
+        xs = (((x >> 18) ^ x) >> 27) & 0xffffffff
+        rot = x >> 59
+        v = ((xs >> rot) | (xs << ((32 - rot) & 31))) & 0xffffffff if rot else xs
+        out += v.to_bytes(4, "little")
+    return out[:n]
+
+def tie_C09(ctx):
+    rng = ctx.rng
+    xs = [0, 1, MASK64, (-PHI) & MASK64, 1 << 63, 0xffffffff, 1 << 32] + [rng.getrandbits(64) for _ in range(ctx.scale(12, 200))]
+    # phase 1: the documented expansion computed by the real SplitMix64 (self-relative)
+    fam14 = [g for g in XOSHIRO_FAMILY if g != "SplitMix64"]
+    p1 = [[f"new 1 SplitMix64 u64 {x:016x}", "fill 1 64"] for x in xs]
+    o1 = ctx.real("SplitMix64 expansion of x (real)", p1)
+    cases = []
+    for x, o in zip(xs, o1):
+        stream = bytes.fromhex(o[1])
+        for g in fam14:
+            nb = GENS[g]["seed"]
+            exp = stream[:nb]
+            c = [f"new 0 {g} u64 {x:016x}", "ser 0"]
+            if any(exp):
+                c += [f"new 2 {g} seed {exp.hex()}", "eq 0 2"]
+            cases.append(c)
+        for g, nb in (("XorShiftRng", 16), ("Hc128Rng", 32)):
+            exp = pcg32_seed(x, nb)
+            cases.append([f"new 0 {g} u64 {x:016x}", f"new 2 {g} seed {exp.hex()}", "eq 0 2", "u32 0", "u32 2", "fill 0 70"])
+        for g in ("IsaacRng", "Isaac64Rng"):
+            cases.append([f"new 0 {g} u64 {x:016x}", f"{native(g)} 0", "fill 0 1030"])
+    h, _ = ctx.absolute("seed_from_u64(x) vs model and vs from_seed(documented expansion)", cases)
+    for c, o in zip(cases, h):
+        for cmd, v in zip(c, o):
+            if cmd.startswith("eq ") and v != "true":
+                ctx.fail("seed_from_u64", f"{c[0].split()[2]}::seed_from_u64({c[0].split()[4]}) != from_seed(documented expansion)", c,
+                         expected="true", actual=v)
+    # from_rng / try_from_rng: exactly the bytes delivered, source advanced by exactly that much
+    need = {g: GENS[g]["seed"] for g in GENS}
+    need["IsaacRng"], need["Isaac64Rng"] = 1024, 2048
+    fr = []
+    for g in GENS:
+        nb = need[g]
+        for rep in range(ctx.scale(3, 25)):
+            body = rand_bytes(rng, nb + 24)
+            if g == "XorShiftRng" and rep % 2:
+                body = bytes(16) + body
+            for how in ("rng", "try"):
+                c = [f"src 1 {body.hex()}", f"new 0 {g} {how} 1", "pos 1"]
+                if g not in ("IsaacRng", "Isaac64Rng") and g != "XorShiftRng":
+                    c += [f"new 2 {g} seed {body[:nb].hex()}", "eq 0 2"]
+                c += [f"{native(g)} 0", "fill 0 33"]
+                fr.append(c)
+            # failing sources: at call 0, and (XorShift redraw) at call 1
+            for fail_at in (0, 1):
+                b2 = (bytes(16) + body) if g == "XorShiftRng" else body
+                fr.append([f"src 1 {b2.hex()} {fail_at}", f"new 0 {g} try 1", "pos 1", f"{native(g)} 0"])
+                ctx.dist[f"fail_at={fail_at}"] += 1
+            # a real generator as the source: afterwards the source is advanced by exactly `nb` bytes
+            sg = rng.choice(["Xoshiro256PlusPlus", "IsaacRng", "Hc128Rng", "SplitMix64", "Isaac64Rng", "XorShiftRng"])
+            sseed = rand_bytes(rng, GENS[sg]["seed"])
+            fr.append([f"new 1 {sg} seed {sseed.hex()}", "clone 3 1", f"new 0 {g} rng 1", f"fill 3 {nb}", "u64 1", "u64 3",
+                       f"{native(g)} 0"])
+    h, _ = ctx.absolute("from_rng / try_from_rng: bytes consumed, result, error propagation vs model", fr)
+    for c, o in zip(fr, h):
+        g = c[1].split()[2] if c[1].startswith("new") else c[2].split()[2]
+        if c[0].startswith("src") and len(c[0].split()) == 3:
+            if o[1] != "ok":
+                ctx.fail("from_rng", f"{g}: construction from a non-failing source did not succeed", c, expected="ok", actual=o[1])
+            for cmd, v in zip(c, o):
+                if cmd.startswith("eq ") and v != "true":
+                    ctx.fail("from_rng", f"{g}: from_rng(src) != from_seed(bytes delivered by src)", c, expected="true", actual=v)
+            nb = need[g]
+            body = bytes.fromhex(c[0].split()[2])
+            exp = nb + (16 if g == "XorShiftRng" and body[:16] == bytes(16) else 0)
+            if o[2] != str(exp):
+                ctx.fail("from_rng", f"{g}: source advanced by {o[2]} bytes instead of {exp}", c, expected=str(exp), actual=o[2])
+        elif c[0].startswith("src"):
+            fail_at = int(c[0].split()[3])
+            reaches = fail_at == 0 or g == "XorShiftRng"
+            if reaches and not o[1].startswith("err "):
+                ctx.fail("try_from_rng", f"{g}::try_from_rng returned `{o[1]}` although the source failed at call {fail_at}", c,
+                         expected=f"err {1000 + fail_at}", actual=o[1])
+            if reaches and o[3] != "unsupported":
+                ctx.fail("try_from_rng", f"{g}::try_from_rng produced a generator although the source failed", c)
+        else:
+            if o[4] != o[5]:
+                ctx.fail("from_rng", f"{g}: from_rng leaves a generator source advanced by a different amount than {need[g]} bytes", c,
+                         expected=o[5], actual=o[4])
+
+PROPS.update({
+    "C06": dict(tie=tie_C06, falsifier=lambda ctx: falsify_C06(ctx)),
+    "C07": dict(tie=tie_C07, falsifier=lambda ctx: falsify_C07(ctx)),
+    "C08": dict(tie=tie_C08),
+    "C09": dict(tie=tie_C09),
+})
+
+# ------------------------------------------------------------------ C10: clone / ==
+REAL_EQ = [g for g in GENS if g not in ("IsaacRng", "Isaac64Rng")]
+
+def history(rng, g, k):
+    ops = rand_ops(rng, k, maxfill=40 if "blk" not in GENS[g] else 1100)
+    if GENS[g]["jump"] and rng.random() < 0.3:
+        ops.insert(rng.randrange(len(ops) + 1), rng.choice(["jump", "ljump"]))
+    return ops
+
+def tie_C10(ctx):
+    rng = ctx.rng
+    cases, meta = [], []
+    for g in GENS:
+        info = GENS[g]
+        for i in range(ctx.scale(24, 300)):
+            seed = rand_bytes(rng, info["seed"])
+            pre = history(rng, g, rng.randrange(0, 6))
+            if "blk" in info:
+                pre = ["u32"] * rng.randrange(0, info["blk"] + 2) + pre
+                if i % 6 == 0:
+                    pre = ["u32"] * rng.choice([info["blk"] - 1, info["blk"], 1, 0])
+            cont = history(rng, g, rng.randrange(2, 7))
+            kind = i % 4
+            if kind in (0, 1):      # clone mid-history
+                c = [f"new 0 {g} seed {seed.hex()}"] + op_lines(0, pre) + ["clone 1 0", "eq 0 1"]
+            elif kind == 2:         # same seed, same history
+                c = [f"new 0 {g} seed {seed.hex()}", f"new 1 {g} seed {seed.hex()}"] + \
+                    [l for o in pre for l in op_lines(0, [o]) + op_lines(1, [o])] + ["eq 0 1"]
+            else:                   # near miss: one extra op, or one seed bit
+                if rng.random() < 0.5:
+                    c = [f"new 0 {g} seed {seed.hex()}"] + op_lines(0, pre) + ["clone 1 0"] + \
+                        op_lines(1, [rng.choice(["u32", "u64"])]) + ["eq 0 1"]
+                else:
+                    s2 = bytearray(seed); s2[rng.randrange(len(s2))] ^= 1 << rng.randrange(8)
+                    c = [f"new 0 {g} seed {seed.hex()}", f"new 1 {g} seed {bytes(s2).hex()}"] + \
+                        [l for o in pre for l in op_lines(0, [o]) + op_lines(1, [o])] + ["eq 0 1"]
+            eq_at = len(c) - 1
+            for o in cont:
+                c += op_lines(0, [o]) + op_lines(1, [o])
+            c += ["eq 0 1"]
+            cases.append(c)
+            meta.append((g, kind, eq_at))
+            ctx.dist[f"pair:{['clone','clone','same-history','near-miss'][kind]}"] += 1
+    # Hc128Rng at two read positions of the same block
+    for _ in range(ctx.scale(10, 100)):
+        seed = rand_bytes(rng, 32)
+        k = rng.randrange(1, 15)
+        c = [f"new 0 Hc128Rng seed {seed.hex()}"] + ["u32 0"] * k + ["clone 1 0", "u32 1", "eq 0 1", "u32 0", "eq 0 1"]
+        cases.append(c); meta.append(("Hc128Rng", 9, len(c) - 3))
+    h, _ = ctx.absolute("clone / == pairs with identical continuations vs model", cases)
+    for (g, kind, eq_at), c, o in zip(meta, cases, h):
+        if kind == 9:
+            if o[eq_at] != "false":
+                ctx.fail("eq-index", "two Hc128Rng at different read positions of the same block compare equal", c,
+                         expected="false", actual=o[eq_at])
+            continue
+        e0 = o[eq_at]
+        cont_pairs = [(o[i], o[i + 1]) for i in range(eq_at + 1, len(c) - 1, 2)]
+        same = all(x == y for x, y in cont_pairs)
+        if kind in (0, 1):
+            if g in REAL_EQ and e0 != "true":
+                ctx.fail("clone-eq", f"{g}: a clone does not compare equal to its original", c, expected="true", actual=e0)
+            if not same:
+                ctx.fail("clone-future", f"{g}: a clone returns different values than its original", c)
+        if g in REAL_EQ and e0 == "true":
+            if not same:
+                ctx.fail("eq-future", f"{g}: generators that compare equal return different values", c)
+            if o[-1] != "true":
+                ctx.fail("eq-future", f"{g}: generators that compared equal are unequal after identical operations", c,
+                         expected="true", actual=o[-1])
+
+# ------------------------------------------------------------------ C11: serde
+SERDE = [g for g in GENS if GENS[g]["ser"]]
+
+def tie_C11(ctx):
+    rng = ctx.rng
+    cases, meta = [], []
+    for g in SERDE:
+        info = GENS[g]
+        for i in range(ctx.scale(20, 300)):
+            seed = rand_bytes(rng, info["seed"])
+            pre = history(rng, g, rng.randrange(0, 5))
+            if "blk" in info:
+                pre = ["u32"] * rng.choice([0, 1, 2, 255, 256, 257, rng.randrange(0, 600)]) + pre
+                if info["cls"] == "block64" and rng.random() < 0.5:
+                    pre = pre + ["u32"]          # half-consumed word
+            cont = history(rng, g, rng.randrange(2, 6))
+            c = [f"new 0 {g} seed {seed.hex()}"] + op_lines(0, pre) + ["ser 0", "rt 1 0", "ser 0", "ser 1", "eq 0 1"]
+            at = len(c) - 5
+            for o in cont:
+                c += op_lines(0, [o]) + op_lines(1, [o])
+            c += ["ser 0", "ser 1"]
+            cases.append(c); meta.append((g, at))
+            ctx.dist[f"{g}:snapshot"] += 1
+    h, _ = ctx.absolute("bincode image at a random point of a random history, restored twin, continuations vs model", cases)
+    for (g, at), c, o in zip(meta, cases, h):
+        if o[at + 1] != "ok":
+            ctx.fail("serde", f"{g}: deserializing its own image failed", c, expected="ok", actual=o[at + 1]); continue
+        if o[at] != o[at + 2]:
+            ctx.fail("serde", f"{g}: serializing disturbed the original", c)
+        if o[at] != o[at + 3]:
+            ctx.fail("serde", f"{g}: image of the restored generator differs from the snapshot", c)
+        if o[at + 4] != "true":
+            ctx.fail("serde", f"{g}: restored generator does not compare equal", c, expected="true", actual=o[at + 4])
+        pairs = [(o[i], o[i + 1]) for i in range(at + 5, len(c) - 2, 2)]
+        if not all(x == y for x, y in pairs) or o[-1] != o[-2]:
+            ctx.fail("serde", f"{g}: restored generator has a different future", c)
+    # malformed images: truncated, and an invalid bool for Isaac64Rng
+    mal = []
+    for g in SERDE:
+        seed = rand_bytes(rng, GENS[g]["seed"])
+        mal.append([f"new 0 {g} seed {seed.hex()}", "u32 0", "ser 0"])
+    o1 = ctx.real("images for malformed-input tests", mal)
+    m2 = []
+    for g, o in zip(SERDE, o1):
+        img = bytes.fromhex(o[2])
+        m2.append([f"de 1 {g} {img[:-1].hex() if len(img) > 1 else '-'}"])
+        m2.append([f"de 1 {g} {img.hex()}", f"{native(g)} 1"])
+        if g == "Isaac64Rng":
+            b = bytearray(img); b[2048 + 8] = 2
+            m2.append([f"de 1 {g} {bytes(b).hex()}"])
+    ctx.absolute("deserializing truncated / invalid images fails, valid image succeeds", m2)
+
+# ------------------------------------------------------------------ JitterRng timer scripts
+def jitter_readings(rng, n, style=None):
+    """n timer readings. The generator takes them as [prime] + ([loop-count, time, loop-count])*,
+    test_timer as [init] + ([time, lc, lc, time2])*; both see the same list, so alignment is only a
+    matter of which readings act as times."""
+    style = style or rng.choice(["random", "random", "walk", "walk", "smallstep", "stuckrun", "backwards", "huge"])
+    out = []
+    t = rng.getrandbits(rng.choice([20, 40, 63]))
+    for i in range(n):
+        if style == "random":
+            t = rng.getrandbits(64)
+        elif style == "walk":
+            t = (t + rng.randrange(1, 5000)) & MASK64
+        elif style == "smallstep":
+            t = (t + rng.choice([1, 2, 3, 5, 8])) & MASK64
+        elif style == "stuckrun":
+            t = (t + (7 if (i // 9) % 2 else rng.randrange(1, 300))) & MASK64
+        elif style == "backwards":
+            t = (t + rng.choice([-50, -1, 0, 3, 100, 1000, 12345])) & MASK64
+        elif style == "huge":
+            t = (t + rng.choice([0x7fffffff, 0x80000000, 0xffffffff, 0x100000001, -0x7fffffff, 1 << 63, 17])) & MASK64
+        out.append(t)
+    return out
+
+def rd_hex(rs):
+    return ",".join(f"{r:x}" for r in rs) if rs else "-"
+
+def tie_C12(ctx):
+    rng = ctx.rng
+    cases = []
+    for i in range(ctx.scale(250, 4000)):
+        style = None
+        rs = jitter_readings(rng, rng.choice([60, 200, 500]), style)
+        c = [f"timer 0 {rd_hex(rs)}", "jit 1 0"]
+        for _ in range(rng.randrange(2, 9)):
+            r = rng.random()
+            if r < 0.2:
+                c.append(f"rounds 1 {rng.choice([1, 1, 2, 3, 5, 8, 64, 255, 0])}")
+            elif r < 0.4:
+                c.append("u32 1")
+            elif r < 0.6:
+                c.append("u64 1")
+            elif r < 0.8:
+                c.append(f"fill 1 {rng.choice([0, 1, 3, 4, 5, 7, 8, 9, 12, 13, 16, 17, 24])}")
+            elif r < 0.9:
+                c.append(f"stats 1 {rng.choice([0, 1])}")
+            else:
+                c.append("clone 2 1"); c.append("u32 2")
+            c.append("calls 0")
+            c.append("pool 1")
+        cases.append(c)
+        ctx.dist["ops:" + ",".join(sorted({l.split()[0] for l in c[2:]}))[:60]] += 1
+    h, m = ctx.absolute("JitterRng on scripted timers: results, pool and number of readings consumed vs model", cases,
+                        stop_at_blocked=True)
+    nb = sum(1 for o in h if "blocked" in o)
+    ctx.dist["cases-ending-blocked"] = nb
+
+# ------------------------------------------------------------------ C13: test_timer
+def probe_script(rng, deltas, start=None, lc=None, times=None):
+    """readings for test_timer: init, then per probe [time, lc, lc, time2] with time2 - time = delta"""
+    t = start if start is not None else rng.randrange(1, 1 << 40)
+    rs = [rng.getrandbits(64)]
+    for d in deltas:
+        gap = rng.randrange(1, 1000)
+        t = (t + gap) & MASK64
+        if t == 0:
+            t = 1
+        t2 = (t + d) & MASK64
+        rs += [t, rng.getrandbits(64), rng.getrandbits(64), t2]
+        t = t2
+    return rs
+
+def timer_oracle(rs):
+    """failure conditions of the property, computed from the readings alone"""
+    def s32(x):
+        x &= 0xffffffff
+        return x - (1 << 32) if x & 0x80000000 else x
+    conds = set()
+    deltas = []
+    zero_reading = False
+    for i in range(400):
+        t, t2 = rs[1 + 4 * i], rs[4 + 4 * i]
+        if t == 0 or t2 == 0:
+            conds.add("NoTimer"); zero_reading = True
+        d = s32(t2 - t)
+        if d == 0:
+            conds.add("CoarseTimer")
+        deltas.append((t, t2, d))
+    counted = deltas[100:]
+    back = sum(1 for t, t2, d in counted if t2 <= t)
+    if back > 3:
+        conds.add("NotMonotonic")
+    mod = sum(1 for t, t2, d in counted if d % 100 == 0)
+    if mod > 270:
+        conds.add("CoarseTimer")
+    stuck = 0
+    last, last2 = 0, 0
+    dsum, old = 0, 0
+    for t, t2, d in counted:
+        d2 = s32(last - d); d3 = s32(d2 - last2)
+        if d == 0 or d2 == 0 or d3 == 0:
+            stuck += 1
+        last, last2 = d, d2
+        dsum += abs(d - old); old = d
+    if stuck > 270:
+        conds.add("TooManyStuck")
+    mean = dsum // 300
+    if mean < 2:
+        conds.add("TinyVariations")
+    return conds, mean
+
+def tie_C13(ctx):
+    rng = ctx.rng
+    scripts = []
+    def alt(a, m, n=400):
+        return [a if i % 2 == 0 else a + m for i in range(n)]
+    # every mean 0..40 and around every power of two (rows of the table, log2 boundaries)
+    means = list(range(0, 41)) + [v for k in range(5, 34) for v in ((1 << k) - 1, 1 << k, (1 << k) + 1)]
+    if not ctx.thorough:
+        means = list(range(0, 20)) + rng.sample(means[20:], 24)
+    for m in means:
+        a = rng.randrange(1, 90)
+        ds = alt(a, m)
+        # break the constant second difference so that the stuck test does not dominate
+        ds = [d + (1 if i % 7 == 3 else 0) for i, d in enumerate(ds)]
+        scripts.append(("mean", probe_script(rng, ds)))
+    # boundaries of delta_sum around 300 and 600 exactly
+    for target in (299, 300, 301, 599, 600, 601, 4799, 4800, 4801):
+        ds = [5] * 400
+        # variation sum over counted probes: make exactly `target` by single +1 bumps/pairs
+        left = target - 5        # first counted delta contributes |5 - 0|
+        i = 101
+        while left > 0 and i < 399:
+            bump = min(left // 2, 40)
+            if bump == 0:
+                break
+            ds[i] = 5 + bump; left -= 2 * bump; i += 2
+        if left == 1:
+            ds[399] = 6; left = 0
+        scripts.append(("sum-boundary", probe_script(rng, ds)))
+    # error classes
+    z = probe_script(rng, [rng.randrange(1, 50) for _ in range(400)]); z[1 + 4 * rng.randrange(400)] = 0
+    scripts.append(("zero-reading", z))
+    z = probe_script(rng, [rng.randrange(1, 50) for _ in range(400)]); z[4 + 4 * rng.randrange(400)] = 0
+    scripts.append(("zero-reading2", z))
+    for pos in (0, 50, 99, 100, 250, 399):
+        ds = [rng.randrange(1, 80) for _ in range(400)]; ds[pos] = 0
+        scripts.append(("zero-delta", probe_script(rng, ds)))
+        ds = [rng.randrange(1, 80) for _ in range(400)]; ds[pos] = 1 << 32
+        scripts.append(("zero-truncated-delta", probe_script(rng, ds)))
+    for nback in range(0, 7):
+        ds = [rng.randrange(1, 200) for _ in range(400)]
+        for p in rng.sample(range(100, 400), nback):
+            ds[p] = -rng.randrange(1, 100)
+        scripts.append((f"backwards={nback}", probe_script(rng, ds)))
+    for frac in (0.85, 0.89, 0.9, 0.9034, 0.91, 0.95, 1.0):
+        ds = [(100 * rng.randrange(1, 50)) if rng.random() < frac else rng.randrange(1, 99) for _ in range(400)]
+        scripts.append((f"mod100~{frac}", probe_script(rng, ds)))
+        k = int(300 * frac)
+        ds = [rng.randrange(1, 200) for _ in range(100)] + [9] * k + [rng.randrange(1, 3000) for _ in range(300 - k)]
+        scripts.append((f"stuck~{frac}", probe_script(rng, ds)))
+    for _ in range(ctx.scale(40, 800)):
+        hi = rng.choice([3, 10, 100, 5000, 1 << 20, 1 << 31])
+        ds = [rng.randrange(1, hi) for _ in range(400)]
+        scripts.append(("random", probe_script(rng, ds)))
+    for style in ("huge", "backwards", "random", "smallstep"):
+        for _ in range(ctx.scale(4, 40)):
+            scripts.append((style, jitter_readings(rng, 1601, style)))
+    cases = []
+    for cls, rs in scripts:
+        cases.append([f"timer 0 {rd_hex(rs)}", "jit 1 0", "testtimer 1", "calls 0", "pool 1"])
+        ctx.dist["script:" + cls.split("=")[0].split("~")[0]] += 1
+    h, _ = ctx.absolute("test_timer on scripted timers (every table row, thresholds, each error class) vs model", cases)
+    follow = []
+    for (cls, rs), c, o in zip(scripts, cases, h):
+        res = o[2]
+        conds, mean = timer_oracle(rs)
+        ctx.dist["result:" + res.split()[0] + (":" + res.split()[1] if res.startswith("err") else "")] += 1
+        if res.startswith("ok "):
+            r = int(res.split()[1])
+            bl = mean.bit_length()
+            if conds:
+                ctx.fail("test_timer", f"test_timer returned Ok({r}) although failure condition(s) {sorted(conds)} hold", c,
+                         expected="Err", actual=res, key=None)
+            elif not (1 <= r <= 128 and r * bl >= 128):
+                ctx.fail("test_timer", f"test_timer returned Ok({r}) for mean delta variation {mean}: not a usable round count "
+                         f"(need 1 <= r <= 128 and r*bitlen(mean) >= 128)", c, expected="1<=r<=128, r*bitlen(mean)>=128", actual=res)
+            follow.append(c[:3] + [f"rounds 1 {r}"])
+        elif res.startswith("err "):
+            e = res.split()[1]
+            if e not in conds:
+                ctx.fail("test_timer", f"test_timer returned Err({e}) but that condition does not hold (holding: {sorted(conds)})", c,
+                         expected=str(sorted(conds)), actual=res)
+    h2 = ctx.real("set_rounds(test_timer()?) never trips the assertion", follow)
+    for c, o in zip(follow, h2):
+        if o[3] != "ok":
+            ctx.fail("test_timer", "set_rounds(test_timer()?) panicked", c, expected="ok", actual=o[3])
+
+PROPS.update({
+    "C10": dict(tie=tie_C10),
+    "C11": dict(tie=tie_C11),
+    "C12": dict(tie=tie_C12),
+    "C13": dict(tie=tie_C13),
+})
